@@ -1,7 +1,7 @@
 #!/bin/bash
 # Runs every check of MANIFEST.json in the given tier (default quick) and validates the evidence.
 tier=${1:-quick}
-cd /verif
+cd "$(dirname "$0")/.."
 rc=0
 for id in $(python3 -c "import json;print(' '.join(c['property_id'] for c in json.load(open('MANIFEST.json'))['checks']))"); do
     start=$(date +%s)
@@ -14,7 +14,7 @@ done
 python3-vt - <<'PY'
 import json,jsonschema,glob
 sch=json.load(open('/root/.vp/EVIDENCE.schema.json'))
-for f in sorted(glob.glob('/verif/evidence/*.json')):
+for f in sorted(glob.glob('evidence/*.json')):
     try:
         jsonschema.validate(json.load(open(f)), sch)
     except Exception as e:
